@@ -37,3 +37,12 @@ package relationtuple
 //@   modifies faulted
 //@   ensures faulted == (old(faulted) || result1 != nil)
 //@   ensures forall i in 0..len(result0) :: result0[i] != nil && result0[i].To != nil
+
+// ---- the string<->UUID mapper as seen by handlers (proved in uuid_mapping.go contracts, C16)
+//@ func (*Mapper).FromTuple
+//@   trusted
+//@   requires m != nil && ctx != nil
+//@   requires[C13] no-nil-tuple: forall i in 0..len(ts) :: ts[i] != nil
+//@   modifies db
+//@   ensures[C17] read-only-mapper: m.ReadOnly ==> db == old(db)
+//@   ensures err == nil ==> len(res) == len(ts) && (forall i in 0..len(res) :: res[i] != nil)
